@@ -121,8 +121,8 @@ Inductive number : list N -> N -> Prop :=
 | num_one d : is_digit d = true -> number [d] (d - 48)
 | num_snoc ds v d : number ds v -> is_digit d = true -> number (ds ++ [d]) (10 * v + (d - 48)).
 
-(* n, n+1, ..., m *)
-Definition cpu_range (n m : N) : list N := map (fun i => n + N.of_nat i) (seq 0 (S (N.to_nat (m - n)))).
+(* n+0, n+1, ..., n+(m-n) *)
+Definition cpu_range (n m : N) : list N := map (N.add n) (count_up 0 (N.to_nat (m - n))).
 
 Inductive item : list N -> list N -> Prop :=
 | item_one ds n : number ds n -> n <= max_int -> item ds [n]
